@@ -50,6 +50,9 @@ type fsCall struct {
 	quorumOn  int // quorum function reports quorum when it has this many replies (0 = never)
 	fut       *Async
 	corr      *Correctable
+	// perNode: configuration-level calls go through the per-node-argument path (the function
+	// hands every node the request itself, so payload identities stay what they are)
+	perNode bool
 }
 
 func fsNewCall(kind, tag, quorumOn int) *fsCall {
@@ -81,6 +84,11 @@ func (c *fsCall) cqf(r protoreflect.ProtoMessage, replies map[uint32]protoreflec
 func (c *fsCall) run(w *vWorld, cfg RawConfiguration) {
 	method := "verif." + ckNames[c.kind]
 	qd := QuorumCallData{Message: c.req, Method: method, QuorumFunction: c.qf}
+	cd := CorrectableCallData{Message: c.req, Method: method, QuorumFunction: c.cqf, ServerStream: c.kind == ckCorrStream}
+	if c.perNode {
+		qd.PerNodeArgFn = func(r protoreflect.ProtoMessage, id uint32) protoreflect.ProtoMessage { return r }
+		cd.PerNodeArgFn = qd.PerNodeArgFn
+	}
 	switch c.kind {
 	case ckRPC:
 		resp, err := w.nodes[0].RPCCall(c.ctx, CallData{Message: c.req, Method: method})
@@ -105,7 +113,7 @@ func (c *fsCall) run(w *vWorld, cfg RawConfiguration) {
 	case ckCorrectable, ckCorrStream:
 		// (region marker: the wedge F-C09-stream needs a server-stream correctable call)
 		vKnown("R-corrstream", c.kind == ckCorrStream)
-		c.corr = cfg.CorrectableCall(c.ctx, CorrectableCallData{Message: c.req, Method: method, QuorumFunction: c.cqf, ServerStream: c.kind == ckCorrStream})
+		c.corr = cfg.CorrectableCall(c.ctx, cd)
 		c.issued = true
 		go func() {
 			<-c.corr.Done()
